@@ -108,6 +108,14 @@ func genC11Sess(t *rapid.T) *C11SessCase {
 	} else {
 		g.hb = cfg.HBMin
 	}
+	if rapid.IntRange(0, 3).Draw(t, "storeFails") == 0 {
+		// the message store refuses some of its Save calls (first transmissions and
+		// retransmissions alike pass through it): an answer or a resend fails half-way
+		for k := rapid.IntRange(1, 4).Draw(t, "nFailSaves"); k > 0; k-- {
+			cfg.FailSaves = append(cfg.FailSaves, rapid.IntRange(1, 14).Draw(t, "failSave"))
+		}
+		c.Cfg = cfg
+	}
 	n := rapid.IntRange(1, 12).Draw(t, "nSteps")
 	for i := 0; i < n; i++ {
 		if rapid.IntRange(0, 9).Draw(t, "valid") < 3 {
@@ -123,6 +131,8 @@ func genC11Sess(t *rapid.T) *C11SessCase {
 				c.Steps = append(c.Steps, rig.Step{Op: "send", ID: fmt.Sprint("s", i)})
 			case 4:
 				c.Steps = append(c.Steps, rig.Step{Op: "in", In: g.heartbeat("")})
+			case 5:
+				c.Steps = append(c.Steps, rig.Step{Op: "in", In: g.resend(1, 0)})
 			default:
 				c.Steps = append(c.Steps, rig.Step{Op: "in", In: g.testRequest(fmt.Sprint("v", i))})
 			}
@@ -163,6 +173,9 @@ func checkC11Sess(c *C11SessCase, rec *evid.Rec) (vs []pbt.Violation) {
 	}
 	rec.Case(evid.FPs(abstract), delivered >= 1)
 	rec.Hist("role:" + c.Cfg.Role)
+	if len(c.Cfg.FailSaves) > 0 {
+		rec.Hist("message-store-refuses-some-saves")
+	}
 	rec.Extra("hostile_messages_delivered", int64(delivered))
 	if rec.WantSample() && delivered >= 2 {
 		var msgs []string
